@@ -48,11 +48,12 @@ structure TdP (inp : RunInput) (tdFail : Name → Bool) (v : Variant) (ts : TSys
   logW : ∀ w, logOf (some w) ts.log =
     if ts.base.workers w = .exited then (workerTeardown v tdFail w (ts.wtd w)).reverse else []
   logM : logOf none ts.log = []
+  ns : ∀ w, ts.base.workers w = .notStarted → ts.wtd w = []
   crash : ts.crashed = true ↔
     (v.procFixed = false ∧ ∃ w, ts.base.workers w = .exited ∧ (ts.wtd w).any tdFail = true)
 
 theorem init_tdP (inp : RunInput) (tdFail : Name → Bool) (v : Variant) : TdP inp tdFail v (tinit inp) := by
-  refine ⟨init_tdB inp, fun _ => rfl, fun w => ?_, rfl, ?_⟩
+  refine ⟨init_tdB inp, fun _ => rfl, fun w => ?_, rfl, fun _ _ => rfl, ?_⟩
   · simp [tinit, init, logOf]
   · simp [tinit, init]
 
@@ -80,13 +81,14 @@ theorem tstep_tdP {inp : RunInput} {tdFail : Name → Bool} {v : Variant} {ts ts
       have hc : (tdAfter inp tdFail v ts (.main perm) b').crashed = ts.crashed := by
         simp only [tdAfter]; split <;> rfl
       have eb := tdAfter_base inp tdFail v ts (.main perm) b'
-      refine ⟨by rw [eb]; exact hB, ?_, ?_, ?_, ?_⟩
+      refine ⟨by rw [eb]; exact hB, ?_, ?_, ?_, ?_, ?_⟩
       · intro w; rw [hw, eb, e, startOrderOf_noStart inp w hns]; exact h.own w
       · intro w; rw [hlog, hw, eb, h.logW w]
         by_cases x : ts.base.workers w = .exited
         · rw [if_pos x, if_pos ((mv.ex w).mpr x)]
         · rw [if_neg x, if_neg (fun y => x ((mv.ex w).mp y))]
       · rw [hlog]; exact h.logM
+      · intro w x; rw [hw]; rw [eb] at x; exact h.ns w (mv.nsb w x)
       · rw [hc, hw, eb, h.crash]
         constructor
         · rintro ⟨a, w, b, c⟩; exact ⟨a, w, (mv.ex w).mpr b, c⟩
@@ -102,7 +104,7 @@ theorem tstep_tdP {inp : RunInput} {tdFail : Name → Bool} {v : Variant} {ts ts
           by_cases e : k = w
           · subst e; rw [if_pos rfl, hw]; simp
           · rw [if_neg e]
-        refine ⟨by rw [eb]; exact hB, ?_, ?_, h.logM, ?_⟩
+        refine ⟨by rw [eb]; exact hB, ?_, ?_, h.logM, ?_, ?_⟩
         · intro k
           show ts.wtd k = startOrderOf inp k (Ev.fin n w :: ts.base.events)
           rw [show Ev.fin n w :: ts.base.events = [Ev.fin n w] ++ ts.base.events from rfl,
@@ -114,6 +116,12 @@ theorem tstep_tdP {inp : RunInput} {tdFail : Name → Bool} {v : Variant} {ts ts
           by_cases x : ts.base.workers k = .exited
           · rw [if_pos x, if_pos ((exq k).mpr x)]; rfl
           · rw [if_neg x, if_neg (fun y => x ((exq k).mp y))]
+        · intro k x
+          have x' : (setWorker ts.base w .idle).workers k = .notStarted := x
+          simp only [setWorker] at x'
+          by_cases e : k = w
+          · subst e; rw [if_pos rfl] at x'; cases x'
+          · rw [if_neg e] at x'; exact h.ns k x'
         · show ts.crashed = true ↔ _
           rw [h.crash]
           constructor
@@ -136,14 +144,14 @@ theorem tstep_tdP {inp : RunInput} {tdFail : Name → Bool} {v : Variant} {ts ts
           | hold =>
             cases hb
             simp only [tdAfter, htj]
-            exact ⟨hB, h.own, h.logW, h.logM, h.crash⟩
+            exact ⟨hB, h.own, h.logW, h.logM, h.ns, h.crash⟩
           | stop =>
             cases hb
             simp only [tdAfter, htj, hp, if_true]
             have exq : ∀ k, k ≠ w → ((setWorker ts.base w .exited).workers k = .exited ↔ ts.base.workers k = .exited) := by
               intro k hk; simp only [setWorker]; rw [if_neg hk]
             have exw : (setWorker ts.base w .exited).workers w = .exited := by simp [setWorker]
-            refine ⟨hB, h.own, ?_, ?_, ?_⟩
+            refine ⟨hB, h.own, ?_, ?_, ?_, ?_⟩
             · intro k
               show logOf (some k) ((workerTeardown v tdFail w (ts.wtd w)).reverse ++ ts.log) =
                 if (setWorker ts.base w .exited).workers k = .exited then _ else _
@@ -162,6 +170,12 @@ theorem tstep_tdP {inp : RunInput} {tdFail : Name → Bool} {v : Variant} {ts ts
               rw [logOf_append, h.logM, logOf_other (e' := some w)
                 (fun x hx => entity_workerTeardown v tdFail w _ x (List.mem_reverse.mp hx)) (by simp)]
               rfl
+            · intro k x
+              have x' : (setWorker ts.base w .exited).workers k = .notStarted := x
+              simp only [setWorker] at x'
+              by_cases e : k = w
+              · subst e; rw [if_pos rfl] at x'; cases x'
+              · rw [if_neg e] at x'; exact h.ns k x'
             · show (ts.crashed || (!v.procFixed && (ts.wtd w).any tdFail)) = true ↔ _
               rw [Bool.or_eq_true, h.crash]
               constructor
@@ -185,7 +199,7 @@ theorem tstep_tdP {inp : RunInput} {tdFail : Name → Bool} {v : Variant} {ts ts
               by_cases e : k = w
               · subst e; rw [if_pos rfl, hidle]; simp
               · rw [if_neg e]
-            refine ⟨hB, ?_, ?_, h.logM, ?_⟩
+            refine ⟨hB, ?_, ?_, h.logM, ?_, ?_⟩
             · intro k
               show (if k = w ∧ inp.runner = .process ∧ inp.hasTeardown n = true then ts.wtd k ++ [n] else ts.wtd k) =
                 startOrderOf inp k (startTask inp ts.base n w).events
@@ -208,6 +222,14 @@ theorem tstep_tdP {inp : RunInput} {tdFail : Name → Bool} {v : Variant} {ts ts
               · have hk : k ≠ w := fun e => by subst e; rw [hidle] at x; cases x
                 rw [if_pos x, if_pos ((exq k).mpr x), if_neg (fun y => hk y.1)]
               · rw [if_neg x, if_neg (fun y => x ((exq k).mp y))]
+            · intro k x
+              have x' : (setWorker (startTask inp ts.base n w) w (.running n)).workers k = .notStarted := x
+              simp only [setWorker, startTask] at x'
+              by_cases e : k = w
+              · subst e; rw [if_pos rfl] at x'; cases x'
+              · rw [if_neg e] at x'
+                show (if k = w ∧ inp.runner = .process ∧ inp.hasTeardown n = true then ts.wtd k ++ [n] else ts.wtd k) = []
+                rw [if_neg (fun y => e y.1)]; exact h.ns k x'
             · show ts.crashed = true ↔ _
               rw [h.crash]
               constructor
